@@ -163,6 +163,29 @@ Fixpoint exclusive (es : list event) : bool :=
   | _ :: rest => exclusive rest
   end.
 
+(* a request that changes something in the source succeeds only through the core loop: its success reply is
+   preceded, since the previous reply, by the release from rpc:between (the send was taken by the loop's select).
+   Exempt: ConfigureMixFraction (served by the block assembler) and ConfigurePulseLengths (the documented
+   "no change requested" shortcut answers at once). *)
+Definition needs_core (q : request) : bool :=
+  match q with RqMix _ _ | RqPulseLengths _ _ => false | _ => true end.
+
+Fixpoint through_core (os : list op) (es : list event) (seen : bool) : bool :=
+  match es with
+  | [] => true
+  | EL (LPt PRpcBetween) :: rest => through_core os rest true
+  | EL (LRet _ r) :: rest =>
+      match os with
+      | o :: os' =>
+          (match o, r with
+           | OReq q _, ROk => negb (needs_core q) || seen
+           | _, _ => true
+           end) && through_core os' rest false
+      | [] => true
+      end
+  | _ :: rest => through_core os rest seen
+  end.
+
 Definition init_sigma (o : obs) : sigma :=
   mkSigma No (mkEnv false (o_kind o) (o_nchan o) false (fst (o_lens o)) (snd (o_lens o)) false false) No.
 
@@ -171,5 +194,6 @@ Definition C11_check (o : obs) : bool :=
   && Nat.eqb (o_returned o) (length (o_ops o))                 (* no call hangs *)
   && classes_ok (init_sigma o) (o_ops o) (ret_classes (o_events o))   (* one reply each, of the right class *)
   && exclusive (o_events o)
+  && through_core (o_ops o) (o_events o) false                 (* effects only through the core loop *)
   && negb (o_overlap o)                                        (* a handler is never left running beside the data *)
   && (negb (o_final_running o) || o_progress o).               (* data processing is not stalled *)
